@@ -26,13 +26,13 @@ def main():
 
         _sr.replay(ck, "C10", ck.args.replay)
     core.import_repo()
-    factors = list(itertools.product(["tpcn", "rwm"], ["mult", "syst"], [True, False], [None, 0.5]))
+    factors = list(itertools.product(["tpcn", "rwm"], ["mult", "syst"], [True, False], [None, 0.5, 0.05]))
     import random
 
     rnd = random.Random(ck.seed + 10)
     rnd.shuffle(factors)
     n_conf = len(factors)
-    reps = 2 if ck.tier == "quick" else 4
+    reps = 1 if ck.tier == "quick" else 4
     cases = []
     for rep in range(reps):
         for i, (k, r, cl, vv) in enumerate(factors[:n_conf]):
